@@ -68,6 +68,10 @@ EXPLANATION += (
     ' Round 8: node identity is checked over all taxonomy modules (get_child_to_parent included).'
 )
 
+EXPLANATION += (
+    ' Round 10: no return of a function in the anchored modules is empty in one position next to positions that carry data while a sibling return fills it (R-AGREE/partially-empty-return).'
+)
+
 RULE_TEXT = (
     "one obligation per value-identity / provenance / dominance relation "
     "named above; non-trivial when both ends of the relation exist")
